@@ -37,6 +37,8 @@ func symxC12() {
 	symxExchange(b1, b2) // the accepting node has learned of the earlier session
 	symxTick()
 	cNew := symxNewConn()
+	symxCleanSession = !rt.Bool("second_connect_without_clean_session")
+	defer func() { symxCleanSession = true }()
 	newID, newB := "new1", b1
 	if rt.Bool("second_on_other_node") {
 		newID, newB = "new2", b2
